@@ -23,5 +23,11 @@ CONF = {
     'trusted_base': ['model: coq/Model/C11TModel.v (tcpassembly/assembly.go:106-163,238-290,313-345,377-396,479-783), '
                      'coq/Model/C11RModel.v (reassembly/tcpassembly.go:66-78,320-347,640-760,752-887,930-1020,1022-1236,1265-1337; memory.go:25-67,88-209) '
                      'are hand transcriptions at the level of lengths (repaired tree; the unchanged tree is the variant origv)'],
-    'explanation': 'see Props/C11.v',
+    'explanation': 'tcpassembly (any history, pool of connections): C11_t_pages (used = pages queued in live connections, counters = queues), '
+                   'C11_t_once (+ C11_once_*: log accepted by the lifecycle automaton = New first, data only while open, exactly one Complete, nothing after; '
+                   'open streams = live connections), C11_t_flushall (pool empty, used = 0), C11_t_limit (repaired: after every call < limit per connection and < total limit in use), '
+                   'C11_t_age (+untouched). reassembly (repaired model): C11_r_pages, C11_r_flushall (used = 0; remaining connections closed both ways with a stream that declined removal), '
+                   'C11_r_once (panic-free histories). Refuted on the unchanged tree (witnesses replayed on the real code): C11_pages_orig_refuted, C11_hpages_orig_refuted, '
+                   'C11_age_idle_orig_refuted, C11_limit_t_orig_refuted; C11_limit_r_refuted still holds of the repaired reassembly (known finding). '
+                   'Not proved: C11_limit and C11_age for reassembly (covered by correspondence + oracle only).',
 }
